@@ -8,7 +8,8 @@ from . import common, gen, shtools, project, projgen, ninjaparse, c06cdb
 
 LEVEL = 'proof'
 RULE = ('generated projects (libraries of all kinds, executables using them, per-target and global options with adversarial '
-        'argument strings, command() with environment, multi-output build_step, copy_file, alias, default) under generated configure '
+        'argument strings, yacc sources translated by a two-output step and by a one-output step with options of their own (stand-in tool '
+        'harness/stubs/yacc), command() with environment, multi-output build_step, copy_file, alias, default) under generated configure '
         'options (library mode, prefix, CFLAGS/LDFLAGS/CPPFLAGS/LDLIBS from the environment), plain and odd file names; a case = one '
         'step of one project compared across backends; non-trivial when its argv contains a character outside [A-Za-z0-9_./=-]. '
         'W:emit: random scripts driven through the real builtins in an in-process build context (compile with header objects / pch / '
@@ -148,6 +149,8 @@ def one_project(rep, rng, idx, odd_names):
         nk = collections.Counter(key_of(r, subs_n) for r in nrecs)
         for k in mk:
             rep.case('step:%d:%r' % (idx, k[0]), any(re.search(r'[^A-Za-z0-9_./=$-]', a) for a in k[0]))
+            if k[0] != 'FAILED' and any(a.endswith('.y') for a in k[0]):
+                rep.count('steps:generate (yacc) %s' % ('two outputs, through a stamp' if any(a.startswith('--defines=') for a in k[0]) else 'one output'))
         if mk != nk:
             only_m = list((mk - nk).elements())[:3]
             only_n = list((nk - mk).elements())[:3]
@@ -173,7 +176,7 @@ def one_project(rep, rng, idx, odd_names):
                 continue
             have = set(k[0] for k in mk)
             for e in db:
-                if os.path.basename(e['arguments'][0]) not in ('cc', 'c++', 'gcc', 'g++', 'ar', 'argvrec'):
+                if os.path.basename(e['arguments'][0]) not in ('cc', 'c++', 'gcc', 'g++', 'ar', 'argvrec', 'yacc', 'bison'):
                     rep.count('compdb:entry_of_unrecorded_tool')
                     continue
                 args = tuple(canon(a, subs) for a in e['arguments'][1:] if a not in NINJA_ONLY_FLAGS)
@@ -507,6 +510,16 @@ def declared_vs_delivered(rep, rng, idx, backend, odd_names=False):
                     bad += rep.fail('%s backend: compile options %r of %s are delivered as %r' % (backend, want, st['source'], hit[0]),
                                     {'script': p.script(), 'declared': want, 'delivered': hit[0]},
                                     classes=semicolon_class(backend, st['options'], hit[0], p.global_compile))
+            elif st['kind'] == 'generate':
+                # a source translated to C first (yacc): the step's own options reach the translator, whichever target's
+                # recipe the backend runs it from
+                src = os.path.join(s.src, st['source'])
+                hit = [a for a in argvs if src in a]
+                rep.case('sys:%s:gen:%s:%r' % (backend, st['source'], st['options']), bool(st['options']))
+                rep.count('system:generate step, %d output(s)' % len(st['outputs']))
+                if not hit or not contains_sublist(hit[0], st['options']):
+                    bad += rep.fail('%s backend: options %r of the generated source %s are delivered as %r' % (backend, st['options'], st['source'], hit[:1]),
+                                    {'script': p.script(), 'declared': st['options'], 'delivered': hit[:1]}, classes=semicolon_class(backend, st['options'], hit[0] if hit else [], []))
             elif st['kind'] == 'link' and st.get('options'):
                 hit = [a for a in argvs if a and '-o' in a and a[-1].endswith(st['name'])]
                 rep.case('sys:%s:ld:%s' % (backend, st['name']), True)
